@@ -30,7 +30,7 @@ Proof.
   intros Hw. destruct (encode_total [s] (wf_single s Hw)) as [bs E].
   exists bs. rewrite encode1_encodes. split; [exact E|].
   pose proof (decode_encode [s] bs (wf_single s Hw) E) as D.
-  unfold read_request. rewrite D. split.
+  unfold read_request, classify. rewrite D. split.
   - replace (kind_eqb (kind_of s) (kind_of s)) with true by (symmetry; apply kind_eqb_eq; reflexivity).
     reflexivity.
   - intros t Ht. rewrite kind_eqb_neq by congruence. reflexivity.
@@ -38,7 +38,7 @@ Qed.
 
 Theorem plugin_total t bs : read_request t bs <> RCrash /\ read_request t bs <> RHang.
 Proof.
-  pose proof (decode_total_no_crash bs) as [Hf Hc]. unfold read_request.
+  pose proof (decode_total_no_crash bs) as [Hf Hc]. unfold read_request, classify.
   destruct (decode bs) as [[|s r]| | |]; try contradiction; [| destruct (kind_eqb (kind_of s) t) | ];
     split; discriminate.
 Qed.
@@ -46,7 +46,7 @@ Qed.
 Theorem plugin_typed t bs s : read_request t bs = ROk s ->
   kind_of s = t /\ exists more, decode bs = OK (s :: more).
 Proof.
-  unfold read_request. destruct (decode bs) as [[|s0 r]| | |]; try discriminate.
+  unfold read_request, classify. destruct (decode bs) as [[|s0 r]| | |]; try discriminate.
   destruct (kind_eqb (kind_of s0) t) eqn:E; [|discriminate].
   intros H; inversion H; subst. split; [apply kind_eqb_eq; exact E | eexists; reflexivity].
 Qed.
